@@ -217,8 +217,15 @@ def main(tier):
             tasks.append({'kind': 'wsr', 'D': D, 'k': k, 'mode': mode})
     for k in range(-3, (D if tier == 'quick' else 12) + 4):
         tasks.append({'kind': 'round', 'D': D if tier == 'quick' else 12, 'k': k, 'mode': dmode})
-    for k in list(range(-45, 46)) + [589, 590, 591, -590] + ([1000, 5000] if tier == 'thorough' else []):
+    # truncating re-scaling works on unbounded integers and costs milliseconds per scale difference: every difference in a
+    # wide window plus the narrowing-cast boundaries (u8/u16 of a scale difference: 256.., 512.., 65536..)
+    ws_ks = sorted(set(list(range(-300, 1101)) + [2 ** j + d for j in range(8, 17) for d in (-1, 0, 1, 19, 20)] + [-590, -1000] + ([5000, 70000] if tier == 'thorough' else [])))
+    for k in ws_ks:
         tasks.append({'kind': 'with_scale', 'k': k})
+    # rounding re-scaling far to the left of a short number (everything is rounded away: result 0 or one unit), same boundaries
+    for mode in MODES:
+        for k in [255, 256, 257, 270, 275, 276, 511, 512, 513, 531, 1000, 65535, 65536, 65537]:
+            tasks.append({'kind': 'wsr', 'D': 3, 'k': k, 'mode': mode})
     for mode in MODES:
         for sign in ('Minus', 'NoSign', 'Plus'):
             tasks.append({'kind': 'pair', 'mode': mode, 'sign': sign})
